@@ -45,7 +45,7 @@ type formatDOT struct {
 func peerNameAndColorByType(peer Peer) (nameLabel, color string, isExternal bool) {
 	if peer.IsPeerIPType() {
 		return peer.String(), ipColor, true
-	} else if peer.Name() == common.IngressPodName {
+	} else if peer.String() == common.IngressPodString {
 		return peer.String(), nonIPPeerColor, true
 	}
 	return dotformatting.NodeClusterPeerLabel(peer.Name(), peer.Kind()), nonIPPeerColor, false
